@@ -168,6 +168,11 @@ def _guards(b, err_only=True):
                 if any("debug_assert" in m for m in d[2].get("mac", [])):
                     continue
                 is_cmp = True
+        if not is_cmp and op_place(t["op"]) is not None and op_place(t["op"]).get("p"):
+            # the verdict of the comparison travels in a tuple: `match (kind, end.is_valid(size)) { (_, false) => Err.. }`
+            for x in b.origins(t["op"], through_calls=False):
+                if x[0] == "call" and call_is(b.term(x[1]), r"is_valid$", r"PartialOrd.*>::(le|lt|ge|gt)$") and not any("debug_assert" in m for m in b.term(x[1]).get("mac", [])):
+                    is_cmp = True
         if is_cmp:
             out.append(s)
     return out
